@@ -187,8 +187,9 @@ def r3(ctx):
     ok = False
     if loops:
         ifs = [s for s in loops[-1].body if isinstance(s, ast.If)]
-        ok = any('self.tagDefinitions[tag].isPhred' in src(s.test) and 'fastqHeaderSafeQualitiesToPhred' in src(s) for s in ifs) and \
-            any(isinstance(c, ast.Call) and src(c.func) == 'read.set_tag' for c in walk_no_nested(loops[-1]))
+        kv = loops[-1].target.elts[0].id if isinstance(loops[-1].target, ast.Tuple) and isinstance(loops[-1].target.elts[0], ast.Name) else 'tag'
+        ok = any(f'self.tagDefinitions[{kv}].isPhred' in src(s.test) and 'fastqHeaderSafeQualitiesToPhred' in src(s) for s in ifs) and \
+            any(isinstance(c, ast.Call) and src(c.func) == 'read.set_tag' and c.args and src(c.args[0]) == kv for c in walk_no_nested(loops[-1]))
     ctx.emit('C04-R3', ok, BASEDEMUX, loops[-1] if loops else f, 'tagPysamRead decodes exactly the tags whose definition says isPhred and writes every tag to the read', key='decoder-uses-table')
     g = ctx.fn(BASEDEMUX, 'TaggedRecord.addTagByTag')
     ok = any(isinstance(s, ast.If) and src(s.test) == 'isPhred is None' and 'self.tagDefinitions[tagName].isPhred' in src(s) for s in g.body)
@@ -329,8 +330,13 @@ def r5(ctx):
     ctx.emit('C04-R5', ok, BASEDEMUX, lst[0] if lst else t, f'molecular identifier is assembled from {order}' + ('' if ok else ' (expected BC, RX, aA = corrected sequencing index)'), key='MI-components',
              what='tagPysamRead: molecular identifier is not BC + RX + corrected index (aA)')
     mi = [c for c in walk_no_nested(t) if isinstance(c, ast.Call) and isinstance(c.func, ast.Attribute) and c.func.attr == 'addTagByTag' and c.args and isinstance(c.args[0], ast.Constant) and c.args[0].value == 'MI']
-    acc = [s for s in walk_no_nested(t) if isinstance(s, ast.AugAssign) and src(s.target) == 'moleculeIdentifier' and src(s.value) == 'self.tags[tag]']
-    ctx.emit('C04-R5', len(mi) == 1 and src(mi[0].args[1]) == 'moleculeIdentifier' and len(acc) == 1, BASEDEMUX, mi[0] if mi else t, 'MI is the concatenation of those tag values in order', key='MI-concatenation')
+    # the accumulator handed to addTagByTag('MI', ..) grows by the value of the current identifying tag (self.tags[tag], possibly through a local)
+    miv = src(mi[0].args[1]) if mi else 'moleculeIdentifier'
+    tdefs = {src(a_.targets[0]): src(a_.value) for a_ in walk_no_nested(t) if isinstance(a_, ast.Assign) and len(a_.targets) == 1 and isinstance(a_.targets[0], ast.Name)}
+    loopv = {src(l_.target.elts[0]) for l_ in walk_no_nested(t) if isinstance(l_, ast.For) and isinstance(l_.target, ast.Tuple) and l_.target.elts}
+    acc = [s for s in walk_no_nested(t) if isinstance(s, ast.AugAssign) and src(s.target) == miv and
+           any(tdefs.get(src(s.value), src(s.value)).replace('"', "'") in (f'self.tags[{lv_}]', f'self.tags.get({lv_})') for lv_ in loopv)]
+    ctx.emit('C04-R5', len(mi) == 1 and len(acc) == 1, BASEDEMUX, mi[0] if mi else t, 'MI is the concatenation of those tag values in order', key='MI-concatenation')
     sm = [c for c in walk_no_nested(t) if isinstance(c, ast.Call) and isinstance(c.func, ast.Attribute) and c.func.attr == 'addTagByTag' and c.args and isinstance(c.args[0], ast.Constant) and c.args[0].value == 'SM']
     sm.sort(key=lambda c: c.lineno)
     first = sm[0] if sm else t
